@@ -235,7 +235,8 @@ fn run_episode(ep: &Value, epno: usize, cache: &mut HashMap<String, Vocab>, tr: 
             cache.entry(key).or_insert_with(|| from_desc(&cd["vocab"])).clone()
         };
         let vid = cd["vid"].as_u64().unwrap_or(0) as u32;
-        let mut cj = json!({"n": voc.n(), "eos": voc.eos, "canon": voc.canonical as u32});
+        let bc = (0..=254u8).all(|b| voc.words.iter().any(|w| w.len() == 1 && w[0] == b));
+        let mut cj = json!({"n": voc.n(), "eos": voc.eos, "canon": voc.canonical as u32, "bc": bc as u32});
         if ep["log_vocab"].as_u64().unwrap_or(0) != 0 {
             cj["tok"] = voc.to_json()["tok"].clone();
         }
